@@ -311,12 +311,25 @@ RULES = {
     # R4c: calling a fn-pointer field `(x.f)(a, b, c)` becomes the shim method call `x.f.call(a, b, c)`
     "R4c": [("(self.format_for_stderr)(", "self.format_for_stderr.call("), ("(self.format_for_stdout)(", "self.format_for_stdout.call("),
             ("(handle.format_function)(", "handle.format_function.call("), ("(self.format_function)(", "self.format_function.call("),
-            ("(format_function)(", "format_function.call(")],
+            ("(format_function)(", "format_function.call("), ("(self.format)(", "self.format.call(")],
     # R11: std atomics (vstd owns their trivial specs): `.store(` / `.load(` -> shim methods with a permission / an oracle
     "R11": [(".store(", ".vstore("), (".load(", ".vload(")],
     # R4: fn-pointer alias becomes an opaque shim
     "R4": [("FormatFunction", "VFormatFn")],
+    # R5l (computed, see apply_rule): every byte-string literal b".." (Verus gives byte-string literals no value)
+    # becomes a constant VLIT_<hex bytes>, defined at the template's `//@ literals` line as an exec const whose body is
+    # the literal and whose view is the sequence of its bytes (same scheme as R5 bytesconst)
+    "R5l": [],
 }
+
+
+LITERALS = {}
+LIT_MARK = "\x00LITERALS\x00"
+
+
+def literal_defs():
+    return " ".join("#[verifier::external_body] pub(crate) exec const %s: &'static [u8] ensures %s@ == seq![%s], { %s }"
+                    % (n, n, ", ".join("%du8" % x for x in val), lit) for n, (val, lit) in sorted(LITERALS.items()))
 
 
 def apply_rule(sf, a, b, rule, edits):
@@ -325,6 +338,18 @@ def apply_rule(sf, a, b, rule, edits):
     hits = 0
     toks = sf.toks
     sigidx = [k for k in range(a, b) if toks[k].kind not in TRIVIA]
+    if rule == "R5l":
+        import ast
+        for k in sigidx:
+            if toks[k].kind == "str" and toks[k].text.startswith('b"'):
+                val = ast.literal_eval(toks[k].text)
+                if not val:
+                    raise ExtractError("unsupported: empty byte-string literal under R5l")
+                name = "VLIT_" + "".join("%02X" % x for x in val)
+                LITERALS[name] = (val, toks[k].text)
+                edits.replace(k, k + 1, [Piece(name, sf, toks[k].start)])
+                hits += 1
+        return hits
     for pat, rep in RULES[rule]:
         ptoks = []
         raw = [t for t in lex(pat) if t.kind not in TRIVIA]
@@ -587,6 +612,8 @@ def cfg_edits(sf, a, b, features, ed):
                     elem_first = j
                     seen_arrow = False
                     is_item = toks[j].kind == "ident" and toks[j].text in ITEM_KW + MODIFIERS
+                    # block-like expression statements (`#[cfg(..)] if .. {..}`) end with their block (and its else chain)
+                    is_blockstmt = toks[j].kind == "ident" and toks[j].text in ("if", "while", "for", "loop", "match")
                     while j < b:
                         tt = toks[j]
                         if tt.kind in TRIVIA:
@@ -605,6 +632,12 @@ def cfg_edits(sf, a, b, features, ed):
                             nxt_text = toks[nx].text if nx < len(toks) else ""
                             if nxt_text in (",", ";"):
                                 end = nx + 1
+                                break
+                            if is_blockstmt and not seen_arrow:
+                                if nxt_text == "else":
+                                    j = nx + 1
+                                    continue
+                                end = close2 + 1
                                 break
                             if j == elem_first or seen_arrow or is_item:
                                 end = close2 + 1
@@ -675,6 +708,8 @@ class Directive:
         self.counts = []
         self.span_from = None
         self.span_upto = None
+        self.span_semi = False
+        self.span_block = None
         self.bytesconst = False
 
 
@@ -703,18 +738,44 @@ def render_span(d, it, repo_root, registry):
     toks = sf.toks
     if it.body_open is None:
         raise ExtractError("anchor lost: span needs a function with a body")
-    f = find_seq(sf, it.body_open, it.body_close, d.span_from or "")
-    if not f:
-        raise ExtractError("anchor lost: span start %r not found in %s" % (d.span_from, it.name))
-    u = find_seq(sf, f[0], it.body_close, d.span_upto or "")
-    if not u:
-        raise ExtractError("anchor lost: span end %r not found in %s" % (d.span_upto, it.name))
-    j = u[1]
-    while j < it.body_close and toks[j].text != "{":
-        if toks[j].text in "([":
-            j = sf.br[j]
-        j += 1
-    end = sf.br[j] + 1
+    if d.span_block:
+        b = find_seq(sf, it.body_open, it.body_close, d.span_block)
+        if not b:
+            raise ExtractError("anchor lost: block anchor %r not found in %s" % (d.span_block, it.name))
+        if find_seq(sf, b[1] + 1, it.body_close, d.span_block):
+            raise ExtractError("anchor lost: block anchor %r is ambiguous in %s" % (d.span_block, it.name))
+        j = b[1] + 1
+        while j < it.body_close and toks[j].kind in TRIVIA:
+            j += 1
+        if j >= it.body_close or toks[j].text != "{":
+            raise ExtractError("anchor lost: block anchor %r of %s is not followed by a block" % (d.span_block, it.name))
+        f = (j, j)
+        u = None
+        end = sf.br[j] + 1
+    else:
+        f = find_seq(sf, it.body_open, it.body_close, d.span_from or "")
+        if not f:
+            raise ExtractError("anchor lost: span start %r not found in %s" % (d.span_from, it.name))
+        u = find_seq(sf, f[0], it.body_close, d.span_upto or "")
+        if not u:
+            raise ExtractError("anchor lost: span end %r not found in %s" % (d.span_upto, it.name))
+        j = u[1]
+    if d.span_block:
+        pass
+    elif d.span_semi:
+        while j < it.body_close and toks[j].text != ";":
+            if toks[j].text in "([{":
+                j = sf.br[j]
+            j += 1
+        if j >= it.body_close:
+            raise ExtractError("anchor lost: span end %r of %s is not followed by `;`" % (d.span_upto, it.name))
+        end = j + 1
+    else:
+        while j < it.body_close and toks[j].text != "{":
+            if toks[j].text in "([":
+                j = sf.br[j]
+            j += 1
+        end = sf.br[j] + 1
     ed = Edits()
     cfg_t, cfg_f = cfg_edits(sf, f[0], end, FEATURES, ed)
     rule_hits = {}
@@ -941,7 +1002,7 @@ def render_item(d, it, repo_root, registry):
     return out
 
 
-OPTION_KW = ("ret", "req", "ens", "props", "loop", "closure", "rule", "attr", "dropattr", "canary", "rename", "prefix", "from", "upto", "bytesconst", "count")
+OPTION_KW = ("ret", "req", "ens", "props", "loop", "closure", "rule", "attr", "dropattr", "canary", "rename", "prefix", "from", "upto", "uptosemi", "block", "bytesconst", "count")
 _lab_re = re.compile(r"^(req|ens|inv)(\[([^\]]+)\])?\s+(.*)$", re.S)
 
 
@@ -1039,6 +1100,14 @@ def parse_options(d, lines, unit_name):
             d.span_from = rest
         elif w == "upto":
             d.span_upto = rest
+        elif w == "block":
+            # the span is the first `{...}` block that follows the text (e.g. the body of a match arm `Ok(mut buffer) =>`),
+            # braces included: it becomes the body of the wrapper function in the template
+            d.span_block = rest
+        elif w == "uptosemi":
+            # the span ends with the `;` that closes the statement containing the text (not with a block)
+            d.span_upto = rest
+            d.span_semi = True
         elif w == "bytesconst":
             d.bytesconst = True
 
@@ -1074,6 +1143,10 @@ def expand(template_path, repo_root, verif_root, registry, _depth=0):
         md = re.match(r"^\s*//@ defaults rule (\S+) \*\s*$", line)
         if md:
             default_rules.append((md.group(1), -1))
+            i += 1
+            continue
+        if re.match(r"^\s*//@ literals\s*$", line):
+            out.append(Piece(line[:len(line) - len(line.lstrip())] + LIT_MARK + "\n", label="T:%s:%d" % (rel_t, i + 1)))
             i += 1
             continue
         if not m:
@@ -1162,4 +1235,4 @@ def assemble(pieces):
                     cur_line_origin = {"clause": p.label}
         text_parts.append(p.text)
     linemap.append(cur_line_origin)
-    return "".join(text_parts), linemap, marks
+    return "".join(text_parts).replace(LIT_MARK, literal_defs()), linemap, marks
